@@ -662,6 +662,12 @@ impl<'a> Judge<'a> {
                     self.record(shard, actor, st, &format!("public-call{label}"), "log");
                 }
             }
+            Op::StoreDup { .. } => {
+                self.record(shard, actor, st, "own-state-duplicated-own", "must-fail");
+                if ok {
+                    shard.violation_for("C05", "duplicated-own-write-accepted".to_string(), json!({"launch": launch_json(self.launch), "step": format!("{:?}", st.op)}));
+                }
+            }
             Op::StoreInKv { .. } | Op::StoreInStore { .. } | Op::HoldKv { .. } | Op::ReleaseKv => {
                 self.record(shard, actor, st, "own-state", "log");
             }
